@@ -16,12 +16,17 @@ def pools(work, tier, seed, n=None):
                                                                  "MaxWeight": 4, "MaxMLayers": 2}, dump=True, tag="_cls")
     mcs = [st["mc"] for st in tlaval.read_dump(cq["dump"]) if st["mc"]["layers"]]
     os.remove(cq["dump"])
-    out["circuit"] = [{"cls": "circuit", "src": mc} for mc in rnd.sample(mcs, min(n, len(mcs)))]
+    # every one-box circuit (each box of the menu on each admissible type) and a sample of the deeper ones
+    single = [mc for mc in mcs if len(mc["layers"]) == 1]
+    deeper = [mc for mc in mcs if len(mc["layers"]) > 1]
+    out["circuit"] = [{"cls": "circuit", "src": mc} for mc in single + rnd.sample(deeper, min(n, len(deeper)))]
     zx = core.run_model("MC_ZX", work, spec="ZSpec", constants={"MaxQ": 0, "MaxLayers": 0, "Phases": "<- PhasesQ", "Halving": "TRUE",
                                                                  "ZMaxW": 2, "ZMaxBoxes": 2}, dump=True, tag="_cls")
     zds = [st["zd"] for st in tlaval.read_dump(zx["dump"]) if st["zd"]["layers"]]
     os.remove(zx["dump"])
-    out["zx"] = [{"cls": "zx", "src": zd} for zd in rnd.sample(zds, min(n, len(zds)))]
+    zsingle = [zd for zd in zds if len(zd["layers"]) == 1]
+    zdeeper = [zd for zd in zds if len(zd["layers"]) > 1]
+    out["zx"] = [{"cls": "zx", "src": zd} for zd in zsingle + rnd.sample(zdeeper, min(n, len(zdeeper)))]
     ca = core.run_model("MC_Cartesian", work, constants={"MaxBoxes": 3, "MaxWidth": 3, "Inputs": "<- InputsV"}, dump=True, tag="_cls")
     cds = [st["d"] for st in tlaval.read_dump(ca["dump"]) if st["d"]["boxes"]]
     os.remove(ca["dump"])
